@@ -330,6 +330,34 @@ def check_inbound(prog, r):
         r.fail(lv.name, "as-loop-predicate:" + ("no-local-asn" if not local_uncond else "no-confederation-id"),
                "is_as_loop %s: inside a confederation the AS_PATH must be checked for the member AS (always) and for the confederation identifier"
                % ("does not look for the local AS on every path" if not local_uncond else "never looks for the confederation identifier"), lv.loc())
+    # the CLUSTER_LIST loop check is keyed on the session's cluster_id: every iBGP session of a reflector needs one
+    # (a looped route can come back through a non-client iBGP peer just as well as through a client)
+    ak = prog.one(r"rustybgpd::event::accept_connection")
+    av = view(prog, prog.body_key(ak))
+    r.analysed(prog.name(ak))
+    abrs = branches(av)
+    some_roles, n_cid = set(), 0
+    for l_, nm_ in av.local_name.items():
+        if nm_ != "cluster_id":
+            continue
+        for bi, si, s_ in av.defs().get(l_, []):
+            if bi not in av.live:
+                continue
+            is_some = (si != "t" and s_["rv"]["r"] == "agg" and s_["rv"].get("v") == "Some") or si == "t"
+            roles = set()
+            for g, ll, h in flat_guards(av, bi, abrs):
+                if g[0] == "discr" and g[2] and g[2].endswith("PeerRole"):
+                    roles |= set(ll)
+            n_cid += 1
+            if is_some and roles:
+                some_roles |= roles
+    if n_cid == 0:
+        r.unanalysable("accept_connection: the per-session cluster_id definition was not found", av.loc())
+    elif {"Ibgp", "IbgpRrClient"} <= some_roles and not (some_roles & {"Ebgp", "RsClient", "ConfedEbgp"}):
+        r.ok("accept_connection: cluster_id is set for Ibgp and IbgpRrClient sessions (CLUSTER_LIST loop check active on both)")
+    else:
+        r.fail(prog.name(ak), "cluster-id-roles", "the session's cluster_id is set for roles %s: the CLUSTER_LIST loop check in rx_update only runs where it is set, so it must cover every iBGP "
+               "session (Ibgp and IbgpRrClient) and no eBGP one" % sorted(some_roles), av.loc())
     ru = prog.one(r"rustybgpd::event::PeerSession::rx_update")
     uv = view(prog, prog.body_key(ru))
     r.analysed(prog.name(ru))
